@@ -5,6 +5,13 @@ ALL = ["C%02d" % i for i in range(1, 21)]
 
 CHECKS = [
     {
+        "property_id": "C19",
+        "text": "The property quantifies over a finite named matrix: all 1592 pairs x 2 actor orders x 2 delivery orders are executed on the real tree CRDT with a snapshot-fed third replica and clone==root checks (exhaustive). Coq proves the style fragment only (attribute tables are LWW registers whose operations commute; model tied to crdt.RHT).",
+        "note": "PARTIAL proof: no Coq model of crdt/tree.go (merge/split machinery); the verdict on the matrix is exhaustive execution, which is the property's own finite quantifier.",
+        "category": "exploration",
+        "technique": "exhaustive enumeration of the finite matrix on the implementation + Coq proof for the attribute (style) fragment",
+    },
+    {
         "property_id": "C10",
         "text": "Coq theorems on the protocol model for compaction and stale epochs (refusal while attached, strict epoch, stale push adds nothing for every request, stale pull rejected, stale detach accepted). The model replays the traffic of real histories with normal/forced compactions; oracles on the real server cover content preservation, refusal, stale-client handling and convergence after re-attach.",
         "note": "Content preservation itself is an oracle (depends on the YSON rebuild, C18). Memory DB only.",
